@@ -4,23 +4,76 @@ import vlib
 import langcheck
 
 LEVEL = "exploration"
+COMPILES_PROGRAMS = True      # check reports mlang.Compile's long-lived-compiler comparison (vlib.report_compiler_reuse)
 META = {
     "text": "spec/MtailLang.tla is the reference semantics (Exec/Eval over an AST), spec/MtailGen.tla the typed grammar as a seeded generator; "
             "TLC generates programs and lines, computes the expected metrics after every line, and each program is rendered (fully and "
             "minimally parenthesised), compiled by the real compiler and run on the real VM; every metric, label set, value, timestamp "
             "class, expiry mark and runtime-error flag is compared after every line.",
-    "note": "Exploration of an infinite program space by sampling; ints beyond 1e9 and non-dyadic floats are outside the model; the "
+    "note": "Exploration of an infinite program space by sampling; ints beyond 1e9 and non-dyadic floats are outside MtailLang.tla (the 64-bit "
+            "edges are covered separately by the symbolic points of spec/IntExact.tla: comparisons, stores, ++/--, +-1); the "
             "pattern templates are checked against Go regexp for every (pattern,line) used.",
     "technique": "TLA+ reference semantics + TLC-generated programs replayed into the real compiler and VM (direction A)",
     "design_ref": "DESIGN.md 5/C01",
 }
 
 
+def intexact_source(c):
+    """the program of one case of spec/IntExact.tla"""
+    L = "$1" if c["l"] == "cap" else "ga"
+    R = "$2" if c["r"] == "cap" else "gb"
+    body = {"cmp": "  %s %s %s {\n    hit++\n  }\n" % (L, c["op"], R), "store": "", "inc": "  ga++\n", "dec": "  ga--\n",
+            "addk": "  ga = $1 + 1\n", "subk": "  ga = $1 - 1\n"}[c["kind"]]
+    return "%sgauge ga\ngauge gb\n/^(-?\\d+) (-?\\d+)$/ {\n  ga = $1\n  gb = $2\n%s}\n" % ("counter hit\n" if c["kind"] == "cmp" else "", body)
+
+
+def intexact(ctx, binary):
+    """Integers at the 64-bit edges (symbolic points of spec/IntExact.tla): comparisons through icmp and the generic cmp,
+    stores, ++/--, +1/-1 are exact."""
+    r = vlib.tlc(ctx, "IntExact", vlib.cfg_text(spec="Spec", constants={"EmitCases": True}, invariants=["Trichotomy", "Emit"]), label="IntExact")
+    cases = r.cases
+    recs = [x for x in vlib.run_harness(ctx, binary, cases=[{"seed": i + 1, "src": intexact_source(c), "rawlines": [c["a"] + " " + c["b"]]}
+                                                            for i, c in enumerate(cases)], timeout=1200) if "runs" in x]
+    if len(recs) != len(cases):
+        raise vlib.InfraError("lang harness processed %d of %d IntExact cases" % (len(recs), len(cases)))
+
+    def judge(c, rec):
+        bad = []
+        for run in rec["runs"]:
+            tag = "optimiser %s" % ("on" if run["opt"] else "off")
+            if not run["accepted"]:
+                bad.append("%s: rejected: %s" % (tag, (run.get("errors") or run.get("panic") or "")[:160]))
+                continue
+            ln = run["lines"][0]
+            got = {m["name"]: (str(m["lvs"][0]["i"]) if m["lvs"] else None) for m in ln["metrics"]}
+            if ln["err"]:
+                bad.append("%s: runtime error %s" % (tag, ln.get("errmsg", "")[:120]))
+            elif got.get("ga") != c["want"]["ga"] or (c["kind"] == "cmp" and got.get("hit") != str(c["want"]["hit"])):
+                bad.append("%s: ga=%s hit=%s, IntExact.tla ga=%s hit=%s" % (tag, got.get("ga"), got.get("hit"), c["want"]["ga"], c["want"]["hit"]))
+        return bad
+    for c, rec in zip(cases, recs):
+        ctx.cov["evaluations"] += 1
+        ctx.cov["traces_validated_against_impl"] += 1
+        bad = judge(c, rec)
+        if bad and not ctx.enough():
+            src = intexact_source(c)
+            again = [x for x in vlib.run_harness(ctx, binary, cases=[{"seed": 1, "src": src, "rawlines": [c["a"] + " " + c["b"]]}]) if "runs" in x][0]
+            bad2 = judge(c, again)
+            if bad2:
+                ctx.violation({"kind": "intexact", "case": c, "source": src, "line": c["a"] + " " + c["b"], "mismatches": bad2},
+                              "64-bit integer %s on line %r (%s %s): %s; program %r" % (
+                                  c["kind"] + (" " + c["op"] if c["op"] else ""), c["a"] + " " + c["b"], c["an"], c["bn"], bad2[0], src[-90:]))
+    ctx.cov["intexact_cases"] = len(cases)
+
+
 def run(ctx):
     binary = vlib.build(ctx, "lang")
     n = 4000 if ctx.thorough else 500
     langcheck.run_witnesses(ctx, binary)
+    intexact(ctx, binary)
     langcheck.run_profile(ctx, binary, "lang", ctx.seed * 100000, n)
+    # match sites behind short-circuits, one pattern text used at several sites (the capture storage is per regexp index)
+    langcheck.run_profile(ctx, binary, "leak", ctx.seed * 100000 + 35000, 600 if ctx.thorough else 150)
     ctx.cov["rule"] = ("programs = MtailGen!GenCase(seed) for consecutive seeds (typed grammar: declarations, pattern conditions with typed "
                        "captures, nested/else/otherwise, decorators, all binary operators, builtins, del/stop); evaluations = (program,line) "
                        "pairs compared in 2 rendering modes; non-trivial = some line changed a metric or raised a runtime error")
@@ -31,6 +84,16 @@ def run(ctx):
 def replay(ctx, path):
     binary = vlib.build(ctx, "lang")
     rc = json.load(open(path))["case"]
+    if rc.get("kind") == "intexact":
+        rec = [x for x in vlib.run_harness(ctx, binary, cases=[{"seed": 1, "src": rc["source"], "rawlines": [rc["line"]]}]) if "runs" in x][0]
+        for run in rec["runs"]:
+            ln = run["lines"][0] if run["accepted"] else None
+            got = {m["name"]: (str(m["lvs"][0]["i"]) if m["lvs"] else None) for m in ln["metrics"]} if ln else {}
+            print("replay: optimiser %s: accepted=%s err=%s ga=%s hit=%s (IntExact.tla: %s)" % (run["opt"], run["accepted"], ln and ln["err"], got.get("ga"), got.get("hit"), rc["case"]["want"]))
+            if not ln or ln["err"] or got.get("ga") != rc["case"]["want"]["ga"] or (rc["case"]["kind"] == "cmp" and got.get("hit") != str(rc["case"]["want"]["hit"])):
+                ctx.violation(rc, "reproduced: " + rc["mismatches"][0][:200])
+                break
+        return
     cases = langcheck.generate(ctx, rc["profile"], seedset=[rc["seed"]])
     by = langcheck.replay(ctx, binary, cases, rc.get("opt", "on"), rc.get("extra"))
     import langlib
